@@ -59,6 +59,11 @@ var c02Kinds = []string{
 	// an uninitialised (all-zero, Z=0) element is not a group element: a proof or statement
 	// containing one must never be accepted, whatever the final scalar is
 	"zero-D", "zero-L", "zero-R", "zero-C",
+	// a Byzantine prover: follows the protocol on the true polynomials but CLAIMS a different
+	// statement (absorbs the claimed value into its transcript), so the proof is consistent
+	// with the transcript of the false statement - a stronger adversary than corrupting an
+	// honest message afterwards
+	"lying-prover-y", "lying-prover-y", "lying-prover-z", "lying-prover-C",
 }
 
 func (c02) Gen(seed uint64, run int, tier, variant string) interface{} {
@@ -85,7 +90,7 @@ func (c02) Gen(seed uint64, run int, tier, variant string) interface{} {
 		f.Pos = r.Intn(8)
 	case "zero-C":
 		f.Pos = r.Intn(n)
-	case "C-other", "z-other", "y-other", "dup", "drop":
+	case "C-other", "z-other", "y-other", "dup", "drop", "lying-prover-y", "lying-prover-z", "lying-prover-C":
 		f.Pos = r.Intn(n)
 	case "swap", "swap-y", "swap-z", "swap-C":
 		f.Pos, f.Pos2 = r.Intn(n), r.Intn(n)
@@ -135,6 +140,64 @@ type message struct {
 	zeroField      int  // object form: index of the proof element replaced by the zero value (0=D, 1..8=L, 9..16=R), -1 none
 	zeroC          int  // index of the commitment replaced by the zero value, -1 none
 	zeroA          bool // final scalar forced to 0 as well
+}
+
+// lyingProve is the reference prover run by a Byzantine prover node: quotients, D, E and the
+// IPA are computed from the TRUE polynomials, but the transcript absorbs the CLAIMED statement.
+func lyingProve(label string, Cs []refmodel.Point, zs []uint8, ys []*big.Int, trueFs [][]*big.Int, trueZs []uint8) []byte {
+	tr := refmodel.NewTranscript(label)
+	tr.DomainSep([]byte("multiproof"))
+	n := len(trueFs)
+	for i := 0; i < n; i++ {
+		tr.AppendPoint(Cs[i], []byte("C"))
+		tr.AppendScalar(big.NewInt(int64(zs[i])), []byte("z"))
+		tr.AppendScalar(ys[i], []byte("y"))
+	}
+	R := refmodel.R
+	r := tr.ChallengeScalar([]byte("r"))
+	g := make([]*big.Int, 256)
+	for j := range g {
+		g[j] = new(big.Int)
+	}
+	pw := big.NewInt(1)
+	pows := make([]*big.Int, n)
+	for i := 0; i < n; i++ {
+		pows[i] = new(big.Int).Set(pw)
+		q := refmodel.DivideOnDomain(trueZs[i], trueFs[i])
+		for j := range g {
+			g[j].Add(g[j], new(big.Int).Mul(pw, q[j]))
+			g[j].Mod(g[j], R)
+		}
+		pw = new(big.Int).Mod(new(big.Int).Mul(pw, r), R)
+	}
+	D := refmodel.Commit(g)
+	tr.AppendPoint(D, []byte("D"))
+	t := tr.ChallengeScalar([]byte("t"))
+	h := make([]*big.Int, 256)
+	for j := range h {
+		h[j] = new(big.Int)
+	}
+	for i := 0; i < n; i++ {
+		den := new(big.Int).Sub(t, big.NewInt(int64(trueZs[i])))
+		den.Mod(den, R)
+		inv := new(big.Int).ModInverse(den, R)
+		if inv == nil {
+			inv = new(big.Int)
+		}
+		c := new(big.Int).Mod(new(big.Int).Mul(pows[i], inv), R)
+		for j := range h {
+			h[j].Add(h[j], new(big.Int).Mul(c, trueFs[i][j]))
+			h[j].Mod(h[j], R)
+		}
+	}
+	E := refmodel.Commit(h)
+	tr.AppendPoint(E, []byte("E"))
+	hg := make([]*big.Int, 256)
+	for j := range hg {
+		hg[j] = new(big.Int).Mod(new(big.Int).Sub(h[j], g[j]), R)
+	}
+	ip := refmodel.IPAProve(tr, E.Sub(D), hg, t)
+	return refmodel.MultiProof{D: D, IPA: ip}.Bytes()
 }
 
 func honestProve(o *Openings, label string) ([]byte, error) {
@@ -458,6 +521,37 @@ func (c02) Exec(plan interface{}) Result {
 		d.zs[i], d.zs[j] = d.zs[j], d.zs[i]
 		d.ys[i], d.ys[j] = d.ys[j], d.ys[i]
 		d.reprs[i], d.reprs[j] = d.reprs[j], d.reprs[i]
+	case "lying-prover-y", "lying-prover-z", "lying-prover-C":
+		i := f.Pos % n
+		// prefer an opening that repeats an earlier (commitment, index) pair
+		for k := n - 1; k > 0; k-- {
+			twin := false
+			for j := 0; j < k; j++ {
+				if p.Set.Ops[j].Poly == p.Set.Ops[k].Poly && p.Set.Ops[j].Z == p.Set.Ops[k].Z {
+					twin = true
+				}
+			}
+			if twin && r.Chance(70) {
+				i = k
+				break
+			}
+		}
+		var trueFs [][]*big.Int
+		for _, op := range p.Set.Ops {
+			trueFs = append(trueFs, o.PolyBig[op.Poly])
+		}
+		trueZs := append([]uint8{}, o.Zs...)
+		switch f.Kind {
+		case "lying-prover-y":
+			d.ys[i] = new(big.Int).Mod(new(big.Int).Add(d.ys[i], big.NewInt(int64(1+r.Intn(1000)))), refmodel.R)
+		case "lying-prover-z":
+			d.zs[i] = d.zs[i] + uint8(1+r.Intn(255))
+		default:
+			_, poolP := env.Pool()
+			d.Cs[i] = poolP[r.Intn(poolSize)]
+		}
+		d.proof = lyingProve(d.label, d.Cs, d.zs, d.ys, trueFs, trueZs)
+		f.Bit |= 4 // the verifier's caller hands over one object for equal commitments
 	case "swap-y":
 		// only the claimed values change places (interesting when both openings share z or C)
 		i, j := f.Pos%n, f.Pos2%n
@@ -733,7 +827,27 @@ func (c02) Exec(plan interface{}) Result {
 	if allZero {
 		res.note("degenerate-all-zero-traffic")
 	}
-	if !same && libOK && !allZero {
+	// A delivered statement that is TRUE (every opening names the commitment of one of the
+	// prover's polynomials and that polynomial's actual value at the claimed index) may
+	// legitimately verify with a proof whose transcript matches it - e.g. a Byzantine prover
+	// "lying" about the index of a constant or zero polynomial says something true. The
+	// cross-check is about FALSE statements; agreement with the reference verifier is required
+	// in every case.
+	stmtTrue := len(d.Cs) > 0 && d.dropYs == 0 && d.dropZs == 0
+	for i := 0; stmtTrue && i < len(d.Cs); i++ {
+		ok := false
+		for pi := range p.Set.Polys {
+			if d.Cs[i].Equal(o.ComRef[pi]) && o.PolyBig[pi][d.zs[i]].Cmp(d.ys[i]) == 0 {
+				ok = true
+				break
+			}
+		}
+		stmtTrue = ok
+	}
+	if stmtTrue && !same {
+		res.note("modified-but-true-statement")
+	}
+	if !same && libOK && !allZero && !stmtTrue {
 		return mergeViolation(res, "accepted-modified-message", "fault %s on %d openings: a message that is not value-identical to the sent one was accepted", f.Kind, n)
 	}
 	if same && !libOK {
